@@ -70,6 +70,10 @@ def build_run(seed, index, opts=None):
     files, meta = generator.generate_tree(seed, index, opts)
     r = Rng(seed, "c16", "ops", index)
     ops, info = make_ops(r, meta, files)
+    if meta.get("extra_args"):
+        for op in ops:
+            if op["op"] in ("iter", "loop"):
+                op["extra_args"] = list(meta["extra_args"])
     hash_seed = r.choice([0, 0, 1, 2, 3])
     layout = 0 if r.chance(0.6) else 1 + r.below(1 << 20)
     return {"index": index, "files": files, "ops": ops, "meta": meta, "info": info, "hash": hash_seed, "layout": layout}
@@ -88,7 +92,7 @@ class Runner:
         print("[c16 %6.1fs]" % (time.time() - self.t0), *a, flush=True)
 
     def spec_of(self, run, tag):
-        return {"files": run["files"], "ops": run["ops"], "layout_seed": run["layout"],
+        return {"files": run["files"], "ops": run["ops"], "layout_seed": run["layout"], "extra_args": (run.get("meta") or {}).get("extra_args", []),
                 "root": os.path.join(self.pyc.dir, "trees", "t%s" % tag, "tree"), "world_timeout": 600}
 
     def execute(self, run, tag):
@@ -212,7 +216,7 @@ class Runner:
             run = runs[k]
             if n >= self.tier.n_cli:
                 break
-            loop_only = dict(run, ops=[{"op": "loop", "mode": "add_ignores", "enable": run["meta"]["enable"]}], hash=0, layout=0)
+            loop_only = dict(run, ops=[{"op": "loop", "mode": "add_ignores", "enable": run["meta"]["enable"], "extra_args": run["meta"].get("extra_args", [])}], hash=0, layout=0)
             try:
                 events, end = self.execute(loop_only, "cli%d" % k)
             except launch.HarnessError as e:
@@ -230,6 +234,7 @@ class Runner:
                    launch.PYTHON, "-m", "pyanalyze", "-r", "--add-ignores"]
             for c in run["meta"]["enable"]:
                 cmd += ["-e", c]
+            cmd += list(run["meta"].get("extra_args", []))
             cmd.append(root)
             try:
                 subprocess.run(cmd, capture_output=True, timeout=300, cwd="/")
@@ -347,7 +352,7 @@ class Runner:
         return run
 
     def write_replay(self, run, v, sig):
-        spec = {"files": run["files"], "ops": run["ops"], "layout_seed": run["layout"]}
+        spec = {"files": run["files"], "ops": run["ops"], "layout_seed": run["layout"], "extra_args": (run.get("meta") or {}).get("extra_args", [])}
         rep = {"property": PROP, "seed": self.seed, "signature": sig, "oracle": v["oracle"], "detail": v["detail"], "hash": run["hash"],
                "spec": spec, "generator_meta": run.get("meta"), "before": v.get("before"), "after": v.get("after")}
         os.makedirs(os.path.join(VERIF, "replays"), exist_ok=True)
